@@ -1,5 +1,5 @@
 import Librfn.Driver.Util
-import Librfn.Gen.Rand
+import Librfn.Gen.RandSeq
 /-! Evaluates the generated `rand31_r` (tie T, C17). -/
 namespace Librfn.Driver.PureRand
 open Librfn.Driver Librfn.Gen
@@ -7,8 +7,8 @@ open Librfn.Driver Librfn.Gen
 def step (_ : Unit) (w : List String) : Unit × List String :=
   match w with
   | ["rand31", s] =>
-      let r := Rand.rand31_r (BitVec.ofNat _ (nat! s))
-      ((), [s!"{r.1.toNat} {r.2.toNat}"])
+      let r := RandSeq.rand31_r (BitVec.ofNat _ (nat! s))
+      ((), [s!"{r.ret.toNat} {r.deref_seedp.toNat}"])
   | _ => ((), ["bad-op"])
 
 def main (_ : List String) : IO UInt32 := runLines () step
